@@ -617,7 +617,7 @@ def check(pid, tier, seed, replay_path, replay_tie=None):
             log("KNOWN-FINDING: property=%s %s [%s]" % (pid, known_sigs[sig].get("what", sig), sig))
         if any_fail_input:
             f0 = any_fail_input[0]
-            rp = os.path.join(ROOT, "replay", "%s-%d.json" % (pid, seed))
+            rp = os.path.join(ROOT, "replay", "%s-%d%s.json" % (pid, seed, "" if os.path.realpath(REPO) == "/repo" else "-p%d" % os.getpid()))
             with open(rp, "w") as fh:
                 json.dump({"property": pid, "seed": seed, "tier": tier, "kind": "failing-input",
                            "tie": f0.get("tie"), "ops": f0.get("ops_shrunk") or f0.get("ops"),
@@ -628,7 +628,7 @@ def check(pid, tier, seed, replay_path, replay_tie=None):
             log("VIOLATION property=%s replay=%s" % (pid, rp))
             rc = 1
         elif broken or corr_broken:
-            rp = os.path.join(ROOT, "replay", "%s-%d.json" % (pid, seed))
+            rp = os.path.join(ROOT, "replay", "%s-%d%s.json" % (pid, seed, "" if os.path.realpath(REPO) == "/repo" else "-p%d" % os.getpid()))
             first_case = next((c["case"] for c in corr_broken if "case" in c), None)
             with open(rp, "w") as fh:
                 json.dump({"property": pid, "seed": seed, "tier": tier,
